@@ -163,13 +163,25 @@ def safe(f):
         return 'err:' + type(ex).__name__
 
 
+def body(r):
+    """answer of a regenerated body (`Py`): ok:<value> | err:<E>"""
+    return r if r.startswith('err:') else 'ok:' + r
+
+
 def corr_calendar(ctx, cal, pname, rng):
     et = enc_tree(tree_of(cal))
     used = ref_used(cal)
     nt = bool(used)
-    ctx.corr('tz_used', [et], safe(lambda: canon(cal.get_used_tzids())), nt)
-    ctx.corr('tz_missing', [et], safe(lambda: canon(cal.get_missing_tzids())), nt)
-    ctx.corr('tz_names', [et], safe(lambda: encl([tz.tz_name for tz in cal.timezones if 'TZID' in tz])), nt)
+    r_used = safe(lambda: canon(cal.get_used_tzids()))
+    r_missing = safe(lambda: canon(cal.get_missing_tzids()))
+    r_names = safe(lambda: encl([tz.tz_name for tz in cal.timezones if 'TZID' in tz]))
+    ctx.corr('tz_used', [et], r_used, nt)
+    ctx.corr('tz_missing', [et], r_missing, nt)
+    ctx.corr('tz_names', [et], r_names, nt)
+    # the same calls against the bodies regenerated from the source by tools/py2lean.py (Gen/BodiesTzUse.lean)
+    ctx.corr('body_tz_used', [et], body(r_used), nt)
+    ctx.corr('body_tz_missing', [et], body(r_missing), nt)
+    ctx.corr('body_tz_names', [et], body(r_names), nt)
     if any(not isinstance(k, str) for k in used):
         return
     known = sorted(k for k in used if knows(pname, k))
@@ -181,7 +193,9 @@ def corr_calendar(ctx, cal, pname, rng):
             c2.add_missing_timezones(first_date=FIRST, last_date=LAST)
             return '\t'.join([encl([tz.tz_name for tz in c2.timezones if 'TZID' in tz]), canon(c2.get_missing_tzids()),
                               encl([s.name for s in c2.subcomponents]), canon(c2.get_used_tzids())])
-        ctx.corr('tz_add', [et, encl(known), str(times)], safe(run), nt)
+        r_add = safe(run)
+        ctx.corr('tz_add', [et, encl(known), str(times)], r_add, nt)
+        ctx.corr('body_tz_add', [et, encl(known), str(times)], body(r_add), nt)
 
 
 def fixed_calendars(rng, pname):
